@@ -22,6 +22,10 @@ type Cfg struct {
 	Asserts    bool // type assertions (often panic)
 	RiskyIndex bool // indices that may be out of range
 	Builtins   bool // len, sprint, upper, str2num, ...
+	Shadow     bool // declarations may reuse the name of a variable of an enclosing block
+	EarlyExit  bool // return inside nested blocks of functions
+	Markers    bool // every block prints a marker on entry
+	Recursion  bool // add recursive and mutually recursive functions
 }
 
 // Default is a balanced configuration.
@@ -32,7 +36,8 @@ type VarInfo struct {
 	Name     string
 	Ty       *m.Type
 	ReadOnly bool
-	Len      int // known minimum length for literal-initialised, never reassigned containers, else -1
+	NoShadow bool // lives in the same parser scope as the block that follows (parameters, loop variables)
+	Len      int  // known minimum length for literal-initialised, never reassigned containers, else -1
 	Keys     []string
 }
 
@@ -51,11 +56,15 @@ type G struct {
 	tracers                                                           map[string]*m.Func
 	noEmpty                                                           int
 	CyclesAvoided                                                     int
+	recs                                                              []*m.Func
+	Shadows, EarlyReturns, Breaks, blockID                            int
+	retType                                                           *m.Type // return type of the function being generated, nil at top level
+	RangeKinds                                                        map[string]int
 }
 
 // New creates a generator.
 func New(t *rapid.T, cfg Cfg) *G {
-	return &G{T: t, Cfg: cfg, scopes: [][]*VarInfo{nil}, OpPairs: map[string]int{}, tracers: map[string]*m.Func{}}
+	return &G{T: t, Cfg: cfg, scopes: [][]*VarInfo{nil}, OpPairs: map[string]int{}, tracers: map[string]*m.Func{}, RangeKinds: map[string]int{}}
 }
 
 func (g *G) intn(label string, n int) int {
@@ -655,6 +664,26 @@ func litLen(e m.Expr) (int, []string) {
 // Decl generates a declaration of a fresh variable and registers it.
 func (g *G) Decl(d int) m.Stmt {
 	name := g.name("v")
+	shadowed := false
+	if g.Cfg.Shadow && len(g.scopes) > 1 && g.chance("shadow", 1, 3) {
+		// reuse the name of a variable of an enclosing block (never of the current one)
+		local := map[string]bool{}
+		for _, v := range g.scopes[len(g.scopes)-1] {
+			local[v.Name] = true
+		}
+		var cands []*VarInfo
+		for _, v := range g.Visible() {
+			if !local[v.Name] && !v.NoShadow && !v.ReadOnly {
+				cands = append(cands, v)
+			}
+		}
+		if len(cands) > 0 {
+			name = cands[g.intn("shadowed", len(cands))].Name
+			shadowed = true
+			g.Shadows++
+		}
+	}
+	_ = shadowed
 	if g.chance("typed", 1, 4) {
 		ty := g.Type(2)
 		g.Declare(&VarInfo{Name: name, Ty: ty, Len: -1})
@@ -745,18 +774,31 @@ func (g *G) forgetAliases(v *VarInfo, n int, keys []string) {
 // Block generates up to n statements in a fresh scope and makes sure every
 // variable declared in it is used (printed) before the scope closes.
 func (g *G) Block(depth int, label string) []m.Stmt {
+	return g.BlockTail(depth, label, nil)
+}
+
+// BlockTail is Block with extra statements generated inside the block's scope
+// after its own statements (e.g. the final return of a function body).
+func (g *G) BlockTail(depth int, label string, tail func() []m.Stmt) []m.Stmt {
 	g.Push()
 	var out []m.Stmt
+	if g.Cfg.Markers {
+		g.blockID++
+		out = append(out, Print(m.StrLit("enter "+label+strconv.Itoa(g.blockID))))
+	}
 	n := 1 + g.intn("nstmts", g.Cfg.MaxStmts)
 	for i := 0; i < n; i++ {
 		out = append(out, g.Stmt(depth)...)
 	}
-	vs := g.Pop()
-	if len(vs) > 0 {
-		out = append(out, PrintVars(label, vs))
+	if len(g.scopes[len(g.scopes)-1]) > 0 {
+		out = append(out, PrintVars(label, g.scopes[len(g.scopes)-1]))
 	} else if len(out) == 0 {
 		out = append(out, Print(m.StrLit(label)))
 	}
+	if tail != nil {
+		out = append(out, tail()...)
+	}
+	g.Pop()
 	return out
 }
 
@@ -764,6 +806,9 @@ func (g *G) Block(depth int, label string) []m.Stmt {
 func (g *G) Stmt(depth int) []m.Stmt {
 	d := g.Cfg.ExprDepth
 	k := g.intn("stmt", 16)
+	if g.Cfg.Markers && depth > 0 && g.chance("control", 1, 3) {
+		k = 10 + g.intn("controlkind", 4) // control-flow heavy programs
+	}
 	switch {
 	case k < 4:
 		return []m.Stmt{g.Decl(d)}
@@ -836,10 +881,20 @@ func (g *G) If(depth int) m.Stmt {
 	for i := 0; i < n; i++ {
 		s.Conds = append(s.Conds, g.Natural(m.TBool, g.Cfg.ExprDepth))
 		g.forgetAll()
-		body := g.Block(depth-1, "if")
-		if g.inLoop > 0 && g.chance("break", 1, 5) {
-			body = append(body, &m.Break{})
-		}
+		body := g.BlockTail(depth-1, "if", func() []m.Stmt {
+			if g.inLoop > 0 && g.chance("break", 1, 3) {
+				g.Breaks++
+				return []m.Stmt{&m.Break{}}
+			}
+			if g.Cfg.EarlyExit && g.retType != nil && g.chance("earlyreturn", 1, 2) {
+				g.EarlyReturns++
+				if g.retType.K == m.None {
+					return []m.Stmt{&m.Return{}}
+				}
+				return []m.Stmt{&m.Return{Val: g.Conv(g.retType, 1)}}
+			}
+			return nil
+		})
 		s.Blocks = append(s.Blocks, body)
 	}
 	if g.chance("else", 1, 2) {
@@ -881,6 +936,28 @@ func (g *G) ForNum(depth int) m.Stmt {
 	if step == 0 {
 		stop = start + span
 	}
+	switch {
+	case step == 0:
+		g.RangeKinds["zero-step"]++
+	case span == 0:
+		g.RangeKinds["empty"]++
+	case step < 0:
+		g.RangeKinds["negative-step"]++
+	case step != float64(int(step)) || start != float64(int(start)):
+		g.RangeKinds["fractional"]++
+	default:
+		g.RangeKinds["plain"]++
+	}
+	if g.chance("reversed", 1, 8) {
+		// bounds on the wrong side of the step direction: an empty range
+		g.RangeKinds["reversed"]++
+		s.Start, s.Stop, s.Step = m.NumLit(stop+step), m.NumLit(start), m.NumLit(step)
+		if step == 0 {
+			s.Step = m.NumLit(1)
+			s.Start, s.Stop = m.NumLit(3), m.NumLit(1)
+		}
+		return g.forBody(s, depth)
+	}
 	switch g.intn("rangeform", 3) {
 	case 0:
 		if start == 0 && step == 1 {
@@ -893,10 +970,14 @@ func (g *G) ForNum(depth int) m.Stmt {
 	default:
 		s.Start, s.Stop, s.Step = m.NumLit(start), m.NumLit(stop), m.NumLit(step)
 	}
+	return g.forBody(s, depth)
+}
+
+func (g *G) forBody(s *m.ForNum, depth int) m.Stmt {
 	g.Push()
 	if g.chance("loopvar", 3, 4) {
 		s.V = g.name("i")
-		g.Declare(&VarInfo{Name: s.V, Ty: m.TNum, ReadOnly: true, Len: -1})
+		g.Declare(&VarInfo{Name: s.V, Ty: m.TNum, ReadOnly: true, NoShadow: true, Len: -1})
 	}
 	g.inLoop++
 	g.forgetAll()
@@ -933,7 +1014,7 @@ func (g *G) ForIn(depth int) m.Stmt {
 	g.Push()
 	if g.chance("loopvar", 3, 4) {
 		s.V = g.name("e")
-		g.Declare(&VarInfo{Name: s.V, Ty: vt, ReadOnly: true, Len: -1})
+		g.Declare(&VarInfo{Name: s.V, Ty: vt, ReadOnly: true, NoShadow: true, Len: -1})
 	}
 	g.inLoop++
 	g.forgetAll()
@@ -970,27 +1051,22 @@ func (g *G) Func(depth int) *m.Func {
 		if f.Variadic {
 			ty = m.ArrOf(p.Ty)
 		}
-		g.Declare(&VarInfo{Name: p.Name, Ty: ty, Len: -1})
+		g.Declare(&VarInfo{Name: p.Name, Ty: ty, Len: -1, NoShadow: true})
 	}
-	wasFunc, wasLoop := g.inFunc, g.inLoop
-	g.inFunc, g.inLoop = true, 0
+	wasFunc, wasLoop, wasRet := g.inFunc, g.inLoop, g.retType
+	g.inFunc, g.inLoop, g.retType = true, 0, f.Ret
 	g.forgetAll()
 	// register before generating the body so that the body may recurse? no: keep
 	// recursion out of the general generator (termination); C10 builds its own.
 	params := g.scopes[1]
-	f.Body = g.Block(depth, "fn")
-	f.Body = append([]m.Stmt{PrintVars(f.Name, params)}, f.Body...)
-	if f.Ret.K != m.None {
-		g.scopes = [][]*VarInfo{saved[0], params}
-		var rv m.Expr
-		if f.Ret.K == m.Any {
-			rv = g.Conv(f.Ret, 2)
-		} else {
-			rv = g.Conv(f.Ret, 2)
+	f.Body = g.BlockTail(depth, "fn", func() []m.Stmt {
+		if f.Ret.K == m.None {
+			return nil
 		}
-		f.Body = append(f.Body, &m.Return{Val: rv})
-	}
-	g.inFunc, g.inLoop = wasFunc, wasLoop
+		return []m.Stmt{&m.Return{Val: g.Conv(f.Ret, 2)}}
+	})
+	f.Body = append([]m.Stmt{PrintVars(f.Name, params)}, f.Body...)
+	g.inFunc, g.inLoop, g.retType = wasFunc, wasLoop, wasRet
 	g.scopes = saved
 	g.Funcs = append(g.Funcs, f)
 	return f
@@ -1017,6 +1093,13 @@ func (g *G) Program() *m.Program {
 	n := 2 + g.intn("ntop", g.Cfg.MaxStmts)
 	for i := 0; i < n; i++ {
 		top = append(top, g.Stmt(g.Cfg.BlockDepth)...)
+	}
+	if g.Cfg.Recursion {
+		for _, c := range g.RecFuncs() {
+			at := nGlobals + g.intn("recpos", len(top)+1-nGlobals)
+			top = append(top[:at:at], append([]m.Stmt{Print(m.StrLit("rec"), c)}, top[at:]...)...)
+		}
+		funcs = append(funcs, g.recs...)
 	}
 	top = append(top, PrintVars("end", g.scopes[0]))
 	// tracers and functions: anywhere at top level (calls may precede definitions)
@@ -1051,3 +1134,48 @@ func (g *G) Program() *m.Program {
 }
 
 func (g *G) usesGlobals(*m.Func) bool { return true }
+
+// RecFuncs adds a recursive function and a mutually recursive pair; it returns
+// calls to them (to be printed by the caller).
+func (g *G) RecFuncs() []m.Expr {
+	n := &m.Var{Name: "n", Ty: m.TNum}
+	rec := &m.Func{Name: g.name("rec"), Params: []m.Param{{Name: "n", Ty: m.TNum}}, Ret: m.TNum}
+	base := m.NumLit(float64(g.intn("base", 3)))
+	recCall := &m.Call{Fn: rec.Name, Args: []m.Expr{&m.Binary{Op: "-", L: n, R: m.NumLit(1), Ty: m.TNum}}, Ty: m.TNum}
+	var combine m.Expr
+	switch g.intn("combine", 3) {
+	case 0:
+		combine = &m.Binary{Op: "+", L: recCall, R: n, Ty: m.TNum}
+	case 1:
+		combine = &m.Binary{Op: "*", L: n, R: recCall, Ty: m.TNum}
+	default:
+		combine = &m.Binary{Op: "-", L: recCall, R: &m.Binary{Op: "*", L: n, R: m.NumLit(2), Ty: m.TNum}, Ty: m.TNum}
+	}
+	// a local that must be private to each activation
+	rec.Body = []m.Stmt{
+		&m.Decl{Name: "local", Ty: m.TNum, Init: &m.Binary{Op: "*", L: n, R: m.NumLit(10), Ty: m.TNum}},
+		Print(m.StrLit(rec.Name), n),
+		&m.If{Conds: []m.Expr{&m.Binary{Op: "<=", L: n, R: m.NumLit(0), Ty: m.TBool}}, Blocks: [][]m.Stmt{{&m.Return{Val: base}}}},
+		&m.Decl{Name: "r", Ty: m.TNum, Init: combine},
+		Print(m.StrLit("back in"), n, &m.Var{Name: "local", Ty: m.TNum}),
+		&m.Return{Val: &m.Var{Name: "r", Ty: m.TNum}},
+	}
+	even := &m.Func{Name: g.name("even"), Params: []m.Param{{Name: "n", Ty: m.TNum}}, Ret: m.TBool}
+	odd := &m.Func{Name: g.name("odd"), Params: []m.Param{{Name: "n", Ty: m.TNum}}, Ret: m.TBool}
+	nm1 := &m.Binary{Op: "-", L: n, R: m.NumLit(1), Ty: m.TNum}
+	even.Body = []m.Stmt{
+		Print(m.StrLit(even.Name), n),
+		&m.If{Conds: []m.Expr{&m.Binary{Op: "==", L: n, R: m.NumLit(0), Ty: m.TBool}}, Blocks: [][]m.Stmt{{&m.Return{Val: m.BoolLit(true)}}}},
+		&m.Return{Val: &m.Call{Fn: odd.Name, Args: []m.Expr{nm1}, Ty: m.TBool}},
+	}
+	odd.Body = []m.Stmt{
+		Print(m.StrLit(odd.Name), n),
+		&m.If{Conds: []m.Expr{&m.Binary{Op: "==", L: n, R: m.NumLit(0), Ty: m.TBool}}, Blocks: [][]m.Stmt{{&m.Return{Val: m.BoolLit(false)}}}},
+		&m.Return{Val: &m.Call{Fn: even.Name, Args: []m.Expr{nm1}, Ty: m.TBool}},
+	}
+	g.recs = append(g.recs, rec, even, odd)
+	return []m.Expr{
+		&m.Call{Fn: rec.Name, Args: []m.Expr{m.NumLit(float64(1 + g.intn("recdepth", 5)))}, Ty: m.TNum},
+		&m.Call{Fn: even.Name, Args: []m.Expr{m.NumLit(float64(g.intn("parity", 6)))}, Ty: m.TBool},
+	}
+}
